@@ -17,7 +17,12 @@ RULE = ("kind 'sample': exhaustive for one topology (all 1-2 key subsets of {0,1
         "2-6 keys with entries 0..5, dyadic unnormalised weights, random oracle answers; in about a third of the cases a SECOND "
         "sample call on the same loader object with other answers); a 'huge' class: key entries of 2**31 .. 2**73 (around "
         "2**53, 1e16..1e20, 2**63, 2**64, +-40) so that column totals exceed float and int64 exactness, and a 'wide' class: "
-        "motif sizes 7..65 (up to 64 stubs for one topology); malformed: too few motif sizes "
+        "motif sizes 7..65 (up to 64 stubs for one topology); CONSTRUCTION PATHS (drawn per random case, rotating over two "
+        "thirds of the exhaustive family): constructor params of JointDegreeManual, the public motif_sizes / jdd property "
+        "setters on a loader built with another configuration (fresh, or already sampled once), "
+        "JointDegreeDistribution.load_joint_degree, and the empirical loader (constructor, empirical_jds setter + "
+        "create_jdd, factory) whose weights are the floats count/n of an observed sequence, with N equal to the number of "
+        "observed vertices in half of those cases; motif size vectors are unsorted and non-contiguous; malformed: too few motif sizes "
         "(IndexError), a zero size (ZeroDivisionError), N = 0, ragged keys. kind 'choices': weights/r dyadic, r on and off the "
         "interval boundaries. Compared: the logged choices call (population, weights, k), every randrange call (range and "
         "answer position), the returned sequence incl. Python type tags, acceptance by JointDegreeEmpirical, exception class. "
@@ -30,6 +35,8 @@ ASSUMPTIONS = ["random.choices(population, weights, k=N) draws keys in proportio
                "bisect rule (modelled in Sample.choices_rule, interval lemma proved, rule compared with CPython on every run)",
                "random.random() is uniform on [0,1) and draws are independent; random.randrange(0,N) is uniform on 0..N-1"]
 TRUSTED = ["CPython random.choices / randrange (selection rule modelled and compared, uniformity trusted)",
+           "a random.shuffle during sampling is answered by a reversal and logged (the run is then judged by c05_check on "
+           "the output and the missing choices call, instead of ending as an oracle-protocol error)",
            "hashability / tuple-ness of the returned entries is observed by the harness (type tags, JointDegreeEmpirical "
            "accepts the result), not expressible in Gallina"]
 TECHNIQUE = ("Coq proof (induction over the patch loop; arithmetic of the minimal patch) + verified checker + "
@@ -152,6 +159,44 @@ def _random_sample(rng, big=False, huge=False, wide=False):
     return c
 
 
+# every public way of configuring a loader is a construction path of its own (lessons 9, 27): constructor params, the
+# motif_sizes / jdd property setters (on a fresh object and on one that was already sampled with another
+# configuration), the factory entry point, and the empirical loader (constructor, empirical_jds setter + create_jdd,
+# factory), whose distribution is derived from an observed sequence
+PATHS = ["params", "setters", "setters-used", "factory-manual", "empirical", "empirical-setter", "factory-empirical"]
+
+
+def _redraw(rng, c, N):
+    nk = len(c["keys"])
+    c["N"] = N
+    c["draws"] = [rng.randrange(nk) for _ in range(N)]
+    c["rs"] = [rng.randrange(N) for _ in range(sum(c["sizes"]))]
+    if "draws2" in c:
+        c["draws2"] = [rng.randrange(nk) for _ in range(N)]
+        c["rs2"] = [rng.randrange(N) for _ in range(sum(c["sizes"]))]
+
+
+def _with_path(rng, c, path=None):
+    p = path or rng.choice(PATHS)
+    if p == "params":
+        return c
+    c["path"] = p
+    if "empirical" in p:
+        nk = len(c["keys"])
+        counts = [rng.randint(1, 4) for _ in range(nk)]
+        obs = [i for i, n in enumerate(counts) for _ in range(n)]
+        rng.shuffle(obs)
+        order = list(dict.fromkeys(obs))           # the loader's dict is keyed in first-occurrence order
+        ren = {old: new for new, old in enumerate(order)}
+        c["keys"] = [c["keys"][i] for i in order]
+        c["observed"] = [ren[i] for i in obs]
+        n = len(obs)
+        c["weights"] = [core.q_tree(Fraction(obs.count(i) / n)) for i in order]    # the float count / n the loader stores
+        if rng.random() < 0.5 and n <= 40:
+            _redraw(rng, c, n)                     # as many vertices as were observed (the repository's own use)
+    return c
+
+
 def _random_choices(rng):
     n = rng.randint(1, 7)
     mode = rng.randint(0, 2)
@@ -174,17 +219,20 @@ def _random_choices(rng):
 
 
 def generate(rng, tier):
-    yield from _exhaustive(tier)
+    for k, c in enumerate(_exhaustive(tier)):
+        if k % 3:
+            c["path"] = ["setters", "factory-manual", "setters-used"][(k // 3) % 3]
+        yield c
     n = 800 if tier == "quick" else 8000
     for _ in range(n):
-        yield _random_sample(rng, big=(tier != "quick"))
+        yield _with_path(rng, _random_sample(rng, big=(tier != "quick")))
     for i in range(n // 4):
-        yield _random_sample(rng, huge=True, wide=(i % 4 == 0))
+        yield _with_path(rng, _random_sample(rng, huge=True, wide=(i % 4 == 0)))
     for _ in range(n // 8):
-        yield _random_sample(rng, wide=True)
+        yield _with_path(rng, _random_sample(rng, wide=True))
     # malformed
     for _ in range(150 if tier == "quick" else 1000):
-        c = _random_sample(rng)
+        c = _with_path(rng, _random_sample(rng), rng.choice(PATHS[:4]))
         k = rng.randint(0, 3)
         if k == 0 and len(c["sizes"]) > 0:
             c["sizes"] = c["sizes"][:rng.randint(0, len(c["sizes"]) - 1)]
@@ -219,7 +267,30 @@ class _Cap:
 
 class _Script(oracles.Script):
     """as oracles.Script, but a choices call asking for another k than scripted is answered anyway (padding with index 0 /
-    truncating), so that a wrong k reaches the checker as a concrete observation instead of a protocol error"""
+    truncating), so that a wrong k reaches the checker as a concrete observation instead of a protocol error.  The answers
+    of choices and of randrange are two queues (a run that never calls choices still gets its randrange answers), and a
+    random.shuffle is answered by a reversal and logged: a sampler that does NOT draw with random.choices (e.g. hands back a
+    shuffled copy of an observed sequence) reaches the verified checker with the output it produced"""
+
+    def __init__(self, answers=None, default=None):
+        super().__init__(answers, default)
+        self.q_choices = [a for k, a in self.answers if k == "choices"]
+        self.q_rr = [a for k, a in self.answers if k == "randrange"]
+
+    def take(self, kind, args):
+        q = self.q_choices if kind == "choices" else self.q_rr if kind == "randrange" else None
+        if q:
+            self.pos += 1
+            return q.pop(0)
+        if kind == "choices":
+            return []
+        if q is not None and self.default is not None:
+            return self.default(kind, args)
+        raise oracles.OracleProtocol(f"unscripted {kind}")
+
+    def shuffle(self, x):
+        self.log.append(("shuffle", list(x), list(range(len(x) - 1, -1, -1))))
+        x.reverse()
 
     def choices(self, population, weights=None, *, cum_weights=None, k=1):
         idxs = list(self.take("choices", (population, weights, k)))
@@ -236,7 +307,7 @@ def _one_call(loader, case, draws, rs):
         out = loader.sample_jds_from_jdd(case["N"])
     calls = [e for e in script.log if e[0] == "choices"]
     rlog = [[e[1], e[2], e[3]] for e in script.log if e[0] == "randrange"]
-    obs = {"n_choices_calls": len(calls)}
+    obs = {"n_choices_calls": len(calls), "other_random_calls": sorted({e[0] for e in script.log} - {"choices", "randrange"})}
     if calls:
         _, pop, wts, k, idxs = calls[0]
         obs["call"] = [[list(p) for p in pop], [core.q_tree(w) for w in (wts or [])], k, list(idxs)]
@@ -257,15 +328,58 @@ def _one_call(loader, case, draws, rs):
     return obs
 
 
-def _impl_sample(case):
+def _make_loader(case, jdd):
+    """the loader, configured along the case's construction path"""
+    import random
+    from gcmpy.joint_degree.joint_degree_distribution import JointDegreeDistribution
+    from gcmpy.joint_degree.joint_degree_loaders.joint_degree_empirical import JointDegreeEmpirical
     from gcmpy.joint_degree.joint_degree_loaders.joint_degree_manual import JointDegreeManual
-    from gcmpy.names.joint_degree_names import JointDegreeNames
+    from gcmpy.joint_degree.joint_degree_type import JointDegreeType
+    from gcmpy.names.joint_degree_names import JointDegreeNames as NM
+    path = case.get("path", "params")
+    sizes = list(case["sizes"])
+    T = max(1, len(sizes))
+    observed = [tuple(case["keys"][i]) for i in case.get("observed", [])]
+    if path == "params":
+        return JointDegreeManual({NM.JDD: jdd, NM.MOTIF_SIZES: sizes})
+    if path == "factory-manual":
+        return JointDegreeDistribution.load_joint_degree(
+            {NM.JOINT_DEGREE_TYPE: JointDegreeType.MANUAL.value, NM.JDD: jdd, NM.MOTIF_SIZES: sizes})
+    if path in ("setters", "setters-used"):
+        # another configuration first (ascending sizes, another distribution); then the public property setters
+        loader = JointDegreeManual({NM.JDD: {(1,) * T: 0.5, (0,) * T: 0.5}, NM.MOTIF_SIZES: list(range(1, T + 1))})
+        if path == "setters-used":
+            state = random.getstate()
+            try:
+                loader.sample_jds_from_jdd(3)
+            finally:
+                random.setstate(state)
+        loader.motif_sizes = sizes
+        loader.jdd = jdd
+        return loader
+    if path == "empirical":
+        return JointDegreeEmpirical({NM.MOTIF_SIZES: sizes, NM.JDS: observed})
+    if path == "factory-empirical":
+        return JointDegreeDistribution.load_joint_degree(
+            {NM.JOINT_DEGREE_TYPE: JointDegreeType.EMPIRICAL.value, NM.MOTIF_SIZES: sizes, NM.JDS: observed})
+    if path == "empirical-setter":
+        loader = JointDegreeEmpirical({NM.MOTIF_SIZES: list(range(1, T + 1)), NM.JDS: [(1,) * T, (0,) * T, (1,) * T]})
+        loader.empirical_jds = observed
+        loader.create_jdd()
+        loader.motif_sizes = sizes
+        return loader
+    raise ValueError(path)
+
+
+def _impl_sample(case):
     jdd = {}
     for k, w in zip(case["keys"], case["weights"]):
         jdd[tuple(k)] = float(fr(w))
-    before = list(jdd.items())
-    loader = JointDegreeManual({JointDegreeNames.JDD: jdd, JointDegreeNames.MOTIF_SIZES: list(case["sizes"])})
+    loader = _make_loader(case, jdd)
+    before = list(loader.jdd.items())
     obs = _one_call(loader, case, case["draws"], case["rs"])
+    obs["sizes_kept"] = list(loader.motif_sizes) == list(case["sizes"])
+    obs["jdd_as_configured"] = before == list(jdd.items())
     obs["jdd_unchanged"] = list(loader.jdd.items()) == before
     if "draws2" in case:        # a second call on the SAME loader object with other oracle answers
         obs["second"] = _one_call(loader, case, case["draws2"], case["rs2"])
@@ -328,12 +442,18 @@ def compare(case, io, mo):
             return d
     if not io["jdd_unchanged"]:
         return "the loader's jdd was modified by sampling"
+    if not io.get("jdd_as_configured", True):
+        return "the loader's jdd is not the configured distribution (construction path %s)" % case.get("path", "params")
+    if not io.get("sizes_kept", True):
+        return "the loader's motif_sizes are not the configured vector (construction path %s)" % case.get("path", "params")
     return None
 
 
 def _cmp_one(case, io, mo, pre):
     if io["n_choices_calls"] != 1:
         return pre + f"{io['n_choices_calls']} choices calls (expected 1)"
+    if io.get("other_random_calls"):
+        return pre + f"unexpected random calls: {io['other_random_calls']}"
     pop, wts, k, idxs = io["call"]
     mpop, mw, mN = mo["call"]
     if pop != mpop or [fr(w) for w in wts] != [fr(w) for w in mw] or k != mN:
@@ -428,6 +548,7 @@ def describe(case, io):
     if case["kind"] == "choices":
         return {"choices weights": [str(fr(w)) for w in case["weights"]], "r": str(fr(case["r"])), "impl": io}
     d = {k: case[k] for k in ("keys", "sizes", "N", "draws")}
+    d["construction_path"] = case.get("path", "params")
     d["rs"] = case["rs"][:8]
     d["impl"] = io if core.is_exc(io) else {"out": io["out"][:8], "randrange": io["rlog"][:8]}
     return d
@@ -440,6 +561,12 @@ def histogram(cases):
         if c["kind"] == "choices":
             h["choices_rule"] += 1
             continue
+        k = "path_" + c.get("path", "params")
+        h[k] = h.get(k, 0) + 1
+        if c.get("path", "").find("empirical") >= 0 and c["N"] == len(c.get("observed", [])):
+            h["empirical_N=observed"] = h.get("empirical_N=observed", 0) + 1
+        if c["sizes"] != sorted(c["sizes"]):
+            h["sizes_not_ascending"] = h.get("sizes_not_ascending", 0) + 1
         if is_valid(c):
             h["sample_valid"] += 1
         else:
